@@ -147,8 +147,9 @@ def impl_all(path, queries):
     return out
 
 
-def cmp_summary(where, im, mo, exact_values=True):
-    """implementation ('ok', dict)/('err', code) vs model (0 (values avg var min max))/(1 code)"""
+def cmp_summary(where, im, mo, exact_values=True, magnitude=0):
+    """implementation ('ok', dict)/('err', code) vs model (0 (values avg var min max))/(1 code); `magnitude`: size of the
+    summands the compared values were themselves computed from (the per-group averages carry the float error of THEIR sums)"""
     if mo[0] == 1:
         return None if im[0] == "err" else f"{where}: implementation returns {im[1]} where the definition is undefined (no finite value)"
     if im[0] == "err":
@@ -161,7 +162,7 @@ def cmp_summary(where, im, mo, exact_values=True):
         return f"{where}: values contain a non-finite entry {iv}"
     if exact_values and [Fraction(v) for v in iv] != vq:
         return f"{where}: values {iv} are not the finite recorded values {[float(v) for v in vq]}"
-    big = max([abs(v) for v in vq] + [Fraction(1, 2 ** 200)])
+    big = max([abs(v) for v in vq] + [Fraction(1, 2 ** 200), Fraction(magnitude)])
     spread = max(vq) - min(vq)
     # float error of a (two-pass) mean / variance of n <= ~10 summands: a few ulps of the largest summand for the mean, of
     # (largest summand x spread) for the variance -- NOT of the squared magnitude (no cancellation of large squares is allowed)
@@ -173,7 +174,7 @@ def cmp_summary(where, im, mo, exact_values=True):
     if exact_values:
         if Fraction(s["min"]) != Fraction(*mn) or Fraction(s["max"]) != Fraction(*mx):
             return f"{where}: min/max {s['min']!r}/{s['max']!r} != {float(Fraction(*mn))!r}/{float(Fraction(*mx))!r}"
-    elif not close(s["min"], Fraction(*mn)) or not close(s["max"], Fraction(*mx)):
+    elif not close(s["min"], Fraction(*mn), magnitude) or not close(s["max"], Fraction(*mx), magnitude):
         return f"{where}: min/max {s['min']!r}/{s['max']!r} != {float(Fraction(*mn))!r}/{float(Fraction(*mx))!r}"
     return None
 
@@ -245,13 +246,14 @@ def check_case(case):
             if mm not in ia[1]:
                 vio.append(f"across-groups summary lacks metric {mm!r}")
                 continue
-            e = cmp_summary(f"across_groups[{mm!r}]", ("ok", ia[1][mm]), [0, vs], exact_values=False)
+            mag = max([abs(v) for g in groups for v in table[g][mm] if v is not None] + [0])
+            e = cmp_summary(f"across_groups[{mm!r}]", ("ok", ia[1][mm]), [0, vs], exact_values=False, magnitude=mag)
             if e:
                 vio.append(e)
             # values: the per-group averages, within tolerance, in group order
             want = [Fraction(a, b) for a, b in vs[0]]
             got = ia[1][mm]["values"]
-            if len(got) != len(want) or any(not close(float(x), w) for x, w in zip(got, want)):
+            if len(got) != len(want) or any(not close(float(x), w, mag) for x, w in zip(got, want)):
                 vio.append(f"across_groups[{mm!r}].values {got} are not the per-group averages {[float(w) for w in want]}")
         a2 = im2.get("across")
         if a2 is None or a2[0] != "ok":
